@@ -150,6 +150,24 @@ def apply_inserts(item, body):
     return body
 
 
+def expand_preludes(names):
+    """Resolve `//@ requires a b` headers of prelude parts (dependencies first, each part once)."""
+    out = []
+
+    def add(n):
+        if n in out:
+            return
+        f = os.path.join(VERIF, 'prelude', n + '.rs')
+        for l in open(f, encoding='utf-8'):
+            if l.startswith('//@ requires'):
+                for d in l.split()[2:]:
+                    add(d)
+        out.append(n)
+    for n in names:
+        add(n)
+    return out
+
+
 class Unit:
     def __init__(self, path):
         self.path = path
@@ -182,7 +200,7 @@ class Unit:
                     if cur_text:
                         self.chunks.append(('text', cur_text, i - len(cur_text) + 1))
                         cur_text = []
-                    for p in rest.split():
+                    for p in expand_preludes(rest.split()):
                         self.chunks.append(('prelude', p, 0))
                 elif word == 'obligation':
                     nm, _, r = rest.partition(' ')
